@@ -72,10 +72,14 @@ CLAIMS["C25"] = (
     "getNodeFromBalancer returns only nodes that are up and are candidates of the given balancer; GetSlaveConn consults only the local "
     "balancer under forced-local reads, local then remote under preferred-local, the global one otherwise (call-site obligations). "
     "gcd / gcd$1 return a positive common divisor of all weights (Euclid loop invariant over divisibility); newBalancer's queue lists every "
-    "candidate at least once and nothing but candidates (nested loop invariants; the shuffle is a trusted permutation).",
+    "candidate at least once and nothing but candidates (nested loop invariants; the shuffle is a trusted permutation). "
+    "getIndicesAndWeights (loop invariants, any number of nodes): the global candidate list holds exactly the nodes with a positive weight, "
+    "each once, in node order, paired with its weight; the local list exactly those of the proxy's datacenter, the remote list exactly "
+    "the others.",
     "Trusted: sync/atomic as sequential cell operations, DBInfo mutex, rand.Shuffle permutes, divisibility axioms (divTrans, divGE: "
     "nonlinear). NOT proved: that candidate k occurs EXACTLY weight_k/gcd times in the queue (only 'at least once, candidates only', and "
-    "that the divisor is common -- not that it is the greatest); getIndicesAndWeights' datacenter filter is not under contract; the "
+    "that the divisor is common -- not that it is the greatest); InitBalancers (wiring the three lists into the three balancers) is not "
+    "under contract; the "
     "pigeonhole step from rrStep to the window statement is a meta-argument.",
     "DESIGN.md section 4, C25")
 
